@@ -1,7 +1,7 @@
-(* C14 lemmas.  The closed obligations over the regenerated builtin rows are discharged by vm_compute at
-   the end of this file (so a changed line of builtins.pytd re-proves or breaks them on the next run). *)
-From Coq Require Import List Bool Arith PeanoNat Lia.
-From PV Require Import Ops.Model Generated.C14_Builtins.
+(* C14 lemmas about the dispatch models, for ARBITRARY builtin rows and user parts (independent of the
+   regenerated table; the closed obligations over this run's rows are discharged in Ops/Closed.v). *)
+From Coq Require Import List Bool PeanoNat.
+From PV Require Import Ops.Model.
 Import ListNotations.
 
 (* ------------------------------------------------------------------------------------------ *)
@@ -163,7 +163,7 @@ Qed.
 Lemma nth_error_heads : forall (rows : list brow) c, c < length rows -> exists r, nth_error rows c = Some r.
 Proof.
   intros rows c H. destruct (nth_error rows c) eqn:E; [eauto|].
-  apply nth_error_None in E. lia.
+  apply nth_error_None in E. exfalso. apply (Nat.lt_irrefl c). eapply Nat.lt_le_trans; eassumption.
 Qed.
 
 Lemma mk_table_builtin : forall rows U c r, nth_error rows c = Some r ->
@@ -173,7 +173,8 @@ Proof. intros. unfold mk_table. rewrite H. reflexivity. Qed.
 Lemma mk_table_user : forall rows U c, length rows <= c -> mk_table rows U c = U c.
 Proof.
   intros. unfold mk_table. destruct (nth_error rows c) eqn:E; [|reflexivity].
-  assert (c < length rows) by (apply nth_error_Some; congruence). lia.
+  assert (c < length rows) by (apply nth_error_Some; congruence).
+  exfalso. apply (Nat.lt_irrefl c). eapply Nat.lt_le_trans; eassumption.
 Qed.
 
 Lemma lookup_builtin : forall rows U c r n, nth_error rows c = Some r ->
@@ -222,7 +223,7 @@ Qed.
 (* reflection of the closed booleans *)
 
 Lemma in_heads : forall (rows : list brow) c, c < length rows -> In c (heads rows).
-Proof. intros. unfold heads. apply in_seq. lia. Qed.
+Proof. intros. unfold heads. apply in_seq. split; [apply Nat.le_0_l|exact H]. Qed.
 
 Lemma find_entry_some : forall r n b, find_entry r n = Some b -> In b (br_entries r) /\ be_name b = n.
 Proof.
@@ -239,7 +240,7 @@ Proof.
   - intros E. rewrite E in H1. exact H1.
   - intros Ha. destruct (a <? nb) eqn:L.
     + apply Nat.ltb_lt in L. rewrite forallb_forall in H2.
-      specialize (H2 a). rewrite Ha in H2. apply H2. apply in_seq. lia.
+      specialize (H2 a). rewrite Ha in H2. apply H2. apply in_seq. split; [apply Nat.le_0_l|exact L].
     + apply Nat.ltb_ge in L. apply (uacc_le_sound nb UR UT a _ _ L Hok H3 Ha).
 Qed.
 
@@ -441,7 +442,7 @@ Section Sim.
     destruct (find_entry rt n) as [bt|].
     - simpl. assert (Lt : (r <? length rowsT) = false) by (apply Nat.ltb_ge; exact Hr).
       rewrite Lt. rewrite <- Hlen in A.
-      rewrite (uacc_le_sound nb UR UT r _ _ Hr Hok Hu A). reflexivity.
+      pose proof (uacc_le_sound nb UR UT r _ _ Hr Hok Hu A) as Q. unfold nb in Q. rewrite Q. reflexivity.
     - destruct (be_uacc br); simpl in *; discriminate.
   Qed.
 End Sim.
@@ -466,7 +467,7 @@ Lemma rname_not_getitem : forall n r, rname n = Some r -> (r =? N_GETITEM) = fal
 Proof.
   intros n r H. unfold rname in H. destruct ((n <? 24) && Nat.even n)%bool eqn:E; [|discriminate].
   inversion H; subst r. apply andb_prop in E. destruct E as [E E2]. apply Nat.ltb_lt in E.
-  apply Nat.eqb_neq. unfold N_GETITEM. intros C. assert (n = 23) by lia. subst n. discriminate E2.
+  apply Nat.eqb_neq. unfold N_GETITEM. intros C. injection C as C. subst n. discriminate E2.
 Qed.
 
 Lemma reported_is_real_lemma : forall (rowsT rowsR : list brow) (UT UR : table) x n y,
@@ -609,7 +610,7 @@ Proof.
   - (* user class *)
     apply Nat.ltb_ge in Lx.
     set (T := mk_table rowsT UT). set (R := mk_table rowsR UR).
-    assert (A0 : arg_ok (length rowsT) UR UT 0) by (intros C; lia).
+    assert (A0 : arg_ok (length rowsT) UR UT 0) by (intros C; exfalso; apply (Nat.lt_irrefl 0); eapply Nat.lt_le_trans; eassumption).
     assert (GA : forall er, getattr R x n = Some er -> exists et, getattr T x n = Some et /\ entry_le_for 0 er et)
       by (apply (getattr_user_sim rowsT rowsR UT UR Hlen Hpos 0 x n Lx Hrel A0 Hobj)).
     assert (LK : forall er, lookup R x n = Some er -> exists et, lookup T x n = Some et /\ entry_le_for 0 er et)
@@ -715,120 +716,3 @@ Proof.
   simpl. destruct (be_call0 bt); [|reflexivity]. simpl in Hpres. rewrite Hpres. discriminate.
 Qed.
 
-(* ------------------------------------------------------------------------------------------ *)
-(* the closed obligations on this run's regenerated rows *)
-
-Lemma shape_ok_holds : shape_ok py_rows rt_rows = true.
-Proof. vm_compute. reflexivity. Qed.
-
-Lemma pair_faithful_holds : pair_faithful py_rows rt_rows = true.
-Proof. vm_compute. reflexivity. Qed.
-
-Lemma ucol_faithful_holds : ucol_faithful py_rows rt_rows = true.
-Proof. vm_compute. reflexivity. Qed.
-
-Lemma obj_faithful_holds : obj_faithful py_rows rt_rows = true.
-Proof. vm_compute. reflexivity. Qed.
-
-Lemma obj_complete_holds : obj_complete py_rows rt_rows = true.
-Proof. vm_compute. reflexivity. Qed.
-
-Lemma unary_faithful_holds : unary_faithful py_rows rt_rows = true.
-Proof. vm_compute. reflexivity. Qed.
-
-Lemma pair_caught_holds : pair_caught py_rows rt_rows = true.
-Proof. vm_compute. reflexivity. Qed.
-
-Lemma refl_closed_holds : refl_closed py_rows = true.
-Proof. vm_compute. reflexivity. Qed.
-
-Lemma presence_caught_holds : presence_caught py_rows rt_rows = true.
-Proof. vm_compute. reflexivity. Qed.
-
-Lemma nb_is : length py_rows = c14_nb.
-Proof. vm_compute. reflexivity. Qed.
-
-(* ------------------------------------------------------------------------------------------ *)
-(* the property statements on this run's tables, for every user part *)
-
-Definition PY (UT : table) : table := mk_table py_rows UT.
-Definition RT (UR : table) : table := mk_table rt_rows UR.
-Definition user_class_ok (UR UT : table) (u : cls) : Prop := user_ok c14_nb UR UT u.
-
-Lemma reported_is_real_inst : forall (UT UR : table) x n y,
-  user_class_ok UR UT x -> user_class_ok UR UT y ->
-  In n binop_names -> excl_fp_bin x n y = false ->
-  binop_py (PY UT) x n y = Err -> binop_c (RT UR) x n y = Err.
-Proof.
-  intros UT UR x n y Hx Hy. unfold user_class_ok in *. rewrite <- nb_is in *.
-  apply reported_is_real_lemma; auto using shape_ok_holds, pair_faithful_holds, ucol_faithful_holds,
-    obj_faithful_holds.
-Qed.
-
-Lemma attr_reported_is_real_inst : forall (UT UR : table) x n,
-  user_class_ok UR UT x -> in_scope_fp rt_rows x n = true ->
-  (attr (PY UT) x n = Err -> attr (RT UR) x n = Err) /\
-  (mcall (PY UT) x n = Err -> mcall (RT UR) x n = Err).
-Proof.
-  intros UT UR x n Hx Hs. unfold user_class_ok in *. rewrite <- nb_is in *.
-  destruct (unary_reported_is_real_lemma py_rows rt_rows UT UR x n shape_ok_holds unary_faithful_holds
-              obj_faithful_holds Hx Hs) as [A [B _]].
-  split; assumption.
-Qed.
-
-Lemma excl_fp_mcall_neg : forall o, excl_fp_mcall o N_NEG = false.
-Proof. intros o. unfold excl_fp_mcall, excl_fp_attr. destruct (o =? C_INT); reflexivity. Qed.
-
-Lemma excl_fp_mcall_call : forall o, excl_fp_mcall o N_CALL = false.
-Proof. intros o. unfold excl_fp_mcall, excl_fp_attr. destruct (o =? C_INT); reflexivity. Qed.
-
-Lemma call_reported_is_real_inst : forall (UT UR : table) x,
-  user_class_ok UR UT x ->
-  (call (PY UT) x = Err -> call (RT UR) x = Err) /\ (neg (PY UT) x = Err -> neg (RT UR) x = Err).
-Proof.
-  intros UT UR x Hx. unfold user_class_ok in *. rewrite <- nb_is in *. split.
-  - assert (Hs : in_scope_fp rt_rows x N_CALL = true).
-    { unfold in_scope_fp. rewrite excl_fp_mcall_call. apply orb_true_r. }
-    destruct (unary_reported_is_real_lemma py_rows rt_rows UT UR x N_CALL shape_ok_holds unary_faithful_holds
-                obj_faithful_holds Hx Hs) as [_ [_ C]]. exact C.
-  - assert (Hs : in_scope_fp rt_rows x N_NEG = true).
-    { unfold in_scope_fp. rewrite excl_fp_mcall_neg. apply orb_true_r. }
-    destruct (unary_reported_is_real_lemma py_rows rt_rows UT UR x N_NEG shape_ok_holds unary_faithful_holds
-                obj_faithful_holds Hx Hs) as [_ [_ C]]. exact C.
-Qed.
-
-Lemma mistake_caught_inst : forall (UT UR : table) x n y,
-  x < c14_nb -> y < c14_nb -> In n advertised_names -> excl_mc_bin x n y = false ->
-  binop_c (RT UR) x n y = Err -> binop_py (PY UT) x n y = Err.
-Proof.
-  intros UT UR x n y Hx Hy. rewrite <- nb_is in *.
-  apply mistake_caught_lemma; auto using shape_ok_holds, pair_caught_holds.
-Qed.
-
-Lemma neg_mistake_caught_inst : forall (UT UR : table) x,
-  x < c14_nb -> neg (RT UR) x = Err -> neg (PY UT) x = Err.
-Proof.
-  intros UT UR x Hx. rewrite <- nb_is in *.
-  apply neg_caught_lemma; auto using shape_ok_holds, presence_caught_holds.
-Qed.
-
-Lemma missing_attr_caught_inst : forall (UT UR : table) x n,
-  user_class_ok UR UT x -> (c14_nb <=? x) || (N_NEG <=? n) = true ->
-  attr (RT UR) x n = Err -> attr (PY UT) x n = Err /\ mcall (PY UT) x n = Err.
-Proof.
-  intros UT UR x n Hx Hs Ha. unfold user_class_ok in *. rewrite <- nb_is in *.
-  destruct (presence_caught_lemma py_rows rt_rows UT UR x n shape_ok_holds presence_caught_holds
-              obj_complete_holds Hx Hs) as [A [B _]].
-  split; [apply A; exact Ha|apply B].
-  unfold RT, attr in Ha. destruct (getattr (mk_table rt_rows UR) x n); [discriminate|reflexivity].
-Qed.
-
-Lemma noncallable_caught_inst : forall (UT UR : table) x,
-  user_class_ok UR UT x -> lookup (RT UR) x N_CALL = None -> call (PY UT) x = Err.
-Proof.
-  intros UT UR x Hx Hn. unfold user_class_ok in *. rewrite <- nb_is in *.
-  assert (Hs : (length py_rows <=? x) || (N_NEG <=? N_CALL) = true) by apply orb_true_r.
-  destruct (presence_caught_lemma py_rows rt_rows UT UR x N_CALL shape_ok_holds presence_caught_holds
-              obj_complete_holds Hx Hs) as [_ [_ C]].
-  apply C. exact Hn.
-Qed.
